@@ -606,6 +606,19 @@ def c04_families(tier, seed, ids=None):
     mk3 = assign("mkpair", fn(["k"], block([assign("inc", fn([], bin_("+", N("k"), I(1)))), assign("both", fn(["x"], bin_("+", call("inc"), N("x")))), assign("k", bin_("*", N("k"), I(10))), N("both")])))
     sib.append(mk(ids, [mk3, assign("bb", call("mkpair", I(2))), assign("w", fn(["n"], lst([N("n"), N("n")]))), call("w", I(1)), call("bb", I(100))], {"sibling": "updated"}))
     out.append(("a returned closure calling a sibling closure of the same definer", sib, ("value",)))
+    # names that a statement the compiler refuses (too large) mentions first: the refused statement has no effect, later statements that
+    # read, assign, capture or shadow those names see ordinary globals
+    def refused(names):
+        return {"perr": True, "cerr": True, "src": "hz = [" + ", ".join(list(names) + ["1"] * 33001) + "]"}
+    rf = []
+    for first in (["qq"], ["qq", "qr", "qs"], ["k", "qq"]):
+        q = first[-1] if first[0] != "k" else "qq"
+        rf.append(mk(ids, [assign("k", I(5)), refused(first), assign("label", St("k")), assign("f", fn([], N(q))), call("f"), assign(q, I(100)), N("k"), N(q), call("f"),
+                           assign("g", fn(["z"], block([assign("k", N("z")), N(q)]))), call("g", I(1)), N("k"), N("label"), N("hz"),
+                           refused(["qt"]), assign("qt", lst([N("k")])), N("qt"), assign("h", fn([], fn([], N("qt")))), call(call("h")) if False else assign("hh", call("h")), call("hh")], {"refused-first-mention": "+".join(first)}))
+    rf.append(mk(ids, [refused(["ga", "gb"]), assign("gb", I(1)), assign("ga", I(2)), lst([N("ga"), N("gb")]), refused(["gc", "ga"]), assign("gd", I(4)), assign("gc", I(3)), lst([N("ga"), N("gb"), N("gc"), N("gd")]),
+                       fr(["ge"], [call("fromto", I(0), I(2))], N("ge")), N("ge")], {"refused-first-mention": "several refusals"}))
+    out.append(("names first mentioned by a statement the compiler refused", rf, ("value",)))
     # a call made in a loop body must not change what the iterator closure sees in its captured variable
     upto = assign("upto", fn(["n"], fn([], block([assign("i", I(0)), wh(bin_("<", N("i"), N("n")), block([y(N("i")), assign("i", bin_("+", N("i"), I(1)))]))]))))
     adder = assign("adder", fn(["k"], fn(["x"], bin_("+", N("x"), N("k")))))
